@@ -22,6 +22,7 @@ fn main() {
             "net" => Box::new(streams::net::NetExec::default()),
             "filt" | "loop" => Box::new(streams::filt::FiltExec::default()),
             "portloop" => Box::new(streams::portloop::PortLoopExec),
+            "kports" => Box::new(streams::kports::KPortsExec),
             _ => panic!("unknown stream"),
         };
         for line in std::io::BufReader::new(file).lines() {
@@ -72,6 +73,7 @@ fn main() {
         "filt" => streams::gen_filt::generate(&mut out, &rng, thorough),
         "loop" => streams::gen_loop::generate(&mut out, &rng, thorough),
         "portloop" => streams::portloop::generate(&mut out, &rng, thorough),
+        "kports" => streams::kports::generate(&mut out, &rng, thorough),
         "net" => streams::net::generate(&mut out, &rng, thorough),
         "cmp" => streams::gen_bmca::generate_cmp(&mut out, &rng, thorough),
         "fml" => streams::gen_fml::generate(&mut out, &rng, thorough),
